@@ -380,3 +380,21 @@ Example ex_bus_result :
   | BLErr _ => False
   end.
 Proof. vm_compute. repeat split; reflexivity. Qed.
+
+(* the monotonicity hypotheses are satisfiable, and the increase can be strict *)
+Definition ex_bus_bigger : bus := mkBus 0 250000 [[mkMsg 0 8 100; mkMsg 1 8 10]; []; [mkMsg 2 3 0]].
+Definition ex_bus_faster : bus := mkBus 0 250000 [[mkMsg 0 8 100; mkMsg 1 8 10]; []; [mkMsg 2 0 499]].
+
+Example monotone_witness :
+  bus_msgs ex_bus = [mkMsg 0 8 100; mkMsg 1 8 10] ++ mkMsg 2 0 0 :: []
+  /\ bus_msgs ex_bus_bigger = [mkMsg 0 8 100; mkMsg 1 8 10] ++ mkMsg 2 3 0 :: []
+  /\ bus_msgs ex_bus_faster = [mkMsg 0 8 100; mkMsg 1 8 10] ++ mkMsg 2 0 499 :: []
+  /\ valid_msg (mkMsg 2 0 0)
+  /\ (0 < cycle_or_default 499 500 <= cycle_or_default 0 500)%Z
+  /\ match calculate_bus_load ex_bus 500, calculate_bus_load ex_bus_bigger 500, calculate_bus_load ex_bus_faster 500 with
+     | BLOk l _, BLOk l1 _, BLOk l2 _ => l < l1 /\ l < l2
+     | _, _, _ => False
+     end.
+Proof.
+  repeat split; try reflexivity; try (cbn; lia); vm_compute; reflexivity.
+Qed.
